@@ -8,4 +8,6 @@ Next == UNCHANGED vars
 RoundTrip == RoundTripOK(rows, cols, h) /\ ListRoundTripOK(rows, h) /\ \A hb \in 0..(2 ^ h - 1) : RoundTripBlankOK(rows, cols, h, hb)
 \* skipping fewer lines than the header has never yields the table back (the reader stops at the header text)
 WrongSkip == h >= 1 => LET r == ImportTable(FileOf(rows, cols, h), h - 1) IN r = Undefined \/ r[2] # cols \/ r[1] # rows
+\* Save_Function as an exporter (beyond the listed properties): shape and x-major order of the saved grid
+ASSUME \A xp \in 2..4 : SavedOK(1, xp, 0) /\ \A yp \in {0, 2, 3, 4} : SavedOK(2, xp, yp)
 =============================================================================
